@@ -1,6 +1,6 @@
 """Property -> rules table (DESIGN §4.0)."""
 
-RULE_MODULES = ["r_ack", "r_quota", "r_key", "r_exits", "r_flow"]
+RULE_MODULES = ["r_ack", "r_quota", "r_key", "r_exits", "r_flow", "r_poll", "r_panic"]
 
 TRUST = [
     "rustc nightly builds mir_built faithfully from the working tree (same front end as the real build)",
@@ -92,6 +92,31 @@ PROPS = {
         "explanation": "Pairing of every class pushed to the retransmission queue with a keyed removal in the arm of its acknowledgement; normalised truth table of session_expired; dominance/ordering of is_reconnect, session_expired, reset_session, retransmit and the select loop in run(); "
                        "retransmit iterates front to back and awaits each unchanged write; stored copy carries DUP.",
         "not_decided": "behaviour over disconnection points x histories; wall-clock arithmetic",
+        "assumptions": TRUST,
+    },
+    "C03": {
+        "rules": ["PENDING", "EOS", "MINHDR", "PANIC"],
+        "explanation": "Necessary structural clauses of framing on MIR: forward dataflow over RxPacketStream::poll_next proving that Poll::Pending is returned only after an inner poll returned Pending for the same context; "
+                       "every Ready(None) control dependent on the transport's own result or a malformed length (read error / 0 bytes into a provably non-empty destination); the gate to the length parse is size >= 2; "
+                       "index and length arithmetic of the reassembly machine discharged site by site in both arithmetic modes (PANIC ledger).",
+        "not_decided": "'exactly the same packets for every chunking': equality of the emitted sequence over all compositions of the byte stream is a statement about runtime index values; no rule is claimed for it",
+        "assumptions": TRUST,
+        "arith_rules": ["PANIC"],
+        "filters": {"PANIC": r"packet_stream|VarSizeInt as std::convert::TryFrom<&\[u8\]>|ledger-link:MINHDR"},
+    },
+    "C04": {
+        "rules": ["PANIC", "DECODE-WITNESS", "VARIANT-DOMAIN", "FIRST-RESPONSE", "EXITS", "WRITE", "EOS", "PENDING"],
+        "explanation": "Panic ledger: every panic-capable site (MIR asserts, unwrap/expect, panic!/unreachable!, indexing, curated panicking bytes API) in bodies reachable from the inbound roots is enumerated and discharged by a dominating guard, a direct length comparison, "
+                       "constant folding, the in-memory-length argument or a named ledger entry; fixed-width decoders carry a length witness; partial functions over packet enums are called inside their domain; first-response and run() exits are error returns; transport faults propagate.",
+        "not_decided": "non-panicking misbehaviour on garbage beyond what EXITS classifies; panics inside dependencies not in the curated list; ledger entries are reasoned, not proved (each is one named site with a reason)",
+        "assumptions": TRUST + ["curated list of panicking methods of the bytes crate (advance, split_to, split_off, get_*, copy_to_bytes, slice)"],
+        "arith_rules": ["PANIC"],
+    },
+    "C16": {
+        "rules": ["PENDING", "REARM", "OWN", "WRITE", "ADAPTER"],
+        "explanation": "Waker contract on MIR: both hand-written poll functions return Pending only in states where an inner poll returned Pending for the same task context; run() re-arms each select! future in the arm that consumed it; "
+                       "handle operations await only their own oneshot receiver; write futures are awaited in place; the stream adapter forwards Pending from the inner receiver.",
+        "not_decided": "trace equality across polling disciplines (executions under different schedulers); idempotence of the buffer bookkeeping of RxPacketStream under a spurious poll (runtime state)",
         "assumptions": TRUST,
     },
 }
